@@ -52,6 +52,8 @@ type Frame struct {
 	parent   *Frame
 	instrOrd map[ssa.Instruction]int
 	callRes  map[string][]Val
+	// results of calls referred to by a clause before the call is generated
+	pendingRes map[string]Val
 	curState *State
 }
 
@@ -70,10 +72,42 @@ func (f *Frame) freeVarLookup(name string, st *State) (Val, bool) {
 // resLookup serves res("<selector>#k", i) in contracts of this frame's function.
 func (f *Frame) resLookup(key string, i int) (Val, bool) {
 	vs, ok := f.callRes[key]
-	if !ok || i >= len(vs) {
+	if ok && i < len(vs) {
+		return vs[i], true
+	}
+	if ok || strings.HasPrefix(key, "reach:") {
 		return Val{}, false
 	}
-	return vs[i], true
+	// a call of the function that has not been executed on the paths generated so far
+	// (e.g. referred to from a loop-continue clause on an earlier back edge): its result
+	// is an unconstrained value; called("...") is false for it
+	for in, ords := range f.siteOrd {
+		ci, isCall := in.(ssa.CallInstruction)
+		if !isCall {
+			continue
+		}
+		for sel, k := range ords {
+			if fmt.Sprintf("%s#%d", sel, k) != key {
+				continue
+			}
+			res := ci.Common().Signature().Results()
+			if i >= res.Len() {
+				return Val{}, false
+			}
+			if f.pendingRes == nil {
+				f.pendingRes = map[string]Val{}
+			}
+			pk := fmt.Sprintf("%s/%d", key, i)
+			if v, ok := f.pendingRes[pk]; ok {
+				return v, true
+			}
+			t := f.c.fresh(f.name("notyet"), f.c.sortOf(res.At(i).Type()))
+			v := Val{T: t, GT: res.At(i).Type()}
+			f.pendingRes[pk] = v
+			return v, true
+		}
+	}
+	return Val{}, false
 }
 
 type hdrInfo struct {
